@@ -23,7 +23,7 @@ SRC_EXT = {".f90", ".F90", ".f", ".ftn", ".fpp", ".F", ".FOR", ".FTN", ".FPP", "
            ".h++", ".hh", ".inc", ".inl", ".tcc", ".icc", ".ipp", ".cu", ".cuh", ".cl", ".s", ".S", ".asm"}
 
 REAL_FILES = ["a.c", "b.h", "n.txt", "d/a.c", "d/e/b.c", "x y.c", "[z].c", "q?.c", "d/dir.c/in.c", "d/e/k.F90", "m.cxx.bak", "d/Makefile"]
-LINKS = {"lnk.c": "a.c", "out.c": "../outside/o.c", "dl": "d", "dangling.c": "nowhere.c", "d/up.h": "../b.h"}
+LINKS = {"lnk.c": "a.c", "out.c": "../outside/o.c", "old.c": "../root-old/o.c", "dl": "d", "dangling.c": "nowhere.c", "d/up.h": "../b.h"}
 
 POOL = ["a.c", "/a.c", "*.c", "*.h", "d/", "/d/", "d", "e/", "d/e/", "d/e", "**/b.c", "d/**", "**/e/**", "d/*/b.c", "?.c", "q?.c", "q\\?.c",
         "[z].c", "\\[z\\].c", "[ab].c", "x y.c", "x*", "#a.c", "\\#a.c", "", "!a.c", "!d/a.c", "!d/e/b.c", "!*.c", "dir.c", "dir.c/", "*.txt",
@@ -34,9 +34,10 @@ POOL3 = ["*.c", "d/", "!d/e/b.c", "!d/", "d/e", "!*.c", "**/b.c", "a.c", "/d/", 
 
 def make_tree(base):
     root = os.path.join(base, "root")
-    os.makedirs(os.path.join(base, "outside"))
-    with open(os.path.join(base, "outside", "o.c"), "w") as f:
-        f.write("int o;\n")
+    for sib in ("outside", "root-old"):       # root-old: a sibling whose name merely *starts with* the root's name
+        os.makedirs(os.path.join(base, sib))
+        with open(os.path.join(base, sib, "o.c"), "w") as f:
+            f.write("int o;\n")
     for rel in REAL_FILES:
         p = os.path.join(root, rel)
         os.makedirs(os.path.dirname(p), exist_ok=True)
@@ -56,7 +57,8 @@ def queries(root):
     q += [("dotdot:a.c", "d/../a.c"), ("dotdot:d/e/b.c", "d/e/../e/b.c"), ("dot:d/a.c", "./d/./a.c"),
           ("link:lnk.c", "lnk.c"), ("abslink:lnk.c", os.path.join(root, "lnk.c")), ("link:out.c", "out.c"), ("link:dangling.c", "dangling.c"),
           ("dirlink:dl/a.c", "dl/a.c"), ("dirlink:dl/e/b.c", os.path.join(root, "dl/e/b.c")), ("link:d/up.h", "d/up.h"),
-          ("outside", os.path.join(root, "..", "outside", "o.c")), ("dirlink:dl/dir.c", "dl/dir.c")]
+          ("out:outside/o.c", os.path.join(root, "..", "outside", "o.c")), ("sib:root-old/o.c", os.path.join(root, "..", "root-old", "o.c")),
+          ("sibdotdot:root-old/o.c", "d/../../root-old/o.c"), ("link:old.c", "old.c"), ("dirlink:dl/dir.c", "dl/dir.c")]
     return q
 
 
@@ -93,19 +95,21 @@ KNOWN_ID = "C09-pathspec-reinclude"
 
 
 def attributable(pats, rel, ignored, exp, got):
-    """The recorded pathspec finding: a negation pattern re-includes a file although git keeps it excluded
-    because (a) one of its parent directories is excluded, or (b) the negation is directory-only (`!x/`)
-    and therefore cannot re-include files.  Anything else is a new violation."""
+    """The recorded finding is a disagreement between the third-party pathspec.GitIgnoreSpec and git.  A wrong
+    answer is attributed to it iff (a) git says the resolved root-relative path is ignored, (b) CBI says member, and
+    (c) pathspec.GitIgnoreSpec itself - asked here, by the harness, on the correct path - does not match it either:
+    CBI merely relays the library's verdict.  Any other wrong answer (another spec class, a wrong path handed to the
+    spec, a different precedence) is a new violation."""
     from ..core import result
     if not any(k["id"] == KNOWN_ID for k in result.load_known(ID)):
         return False
-    if exp is not False or got is not True:
+    if exp is not False or got is not True or rel not in ignored:
         return False
-    if not any(p.startswith("!") for p in pats):
+    import pathspec
+    try:
+        return not pathspec.GitIgnoreSpec.from_lines(list(pats)).match_file(rel)
+    except Exception:  # noqa
         return False
-    parts = rel.split("/")
-    anc = {"/".join(parts[:i]) for i in range(1, len(parts))}
-    return bool(anc & ignored) or any(p.startswith("!") and p.rstrip().endswith("/") for p in pats)
 
 
 def expected_member(root, query, ignored):
